@@ -42,14 +42,15 @@ type wParams struct {
 
 	Stop      *wStop       `json:"stop,omitempty"`   // user stop pinned to a scheduling point
 	Pauses    []wPause     `json:"pauses,omitempty"` // pause/resume cycles on the client
-	Mitm      *wMitm       `json:"mitm,omitempty"` // field-aware substitution in one protocol line
+	Mitm      *wMitm       `json:"mitm,omitempty"`   // field-aware substitution in one protocol line
 	MsgFaults []wMsgFault  `json:"msgfaults,omitempty"`
 	Local     *wLocalFault `json:"local,omitempty"`
-	WireCap   int          `json:"wirecap,omitempty"` // bytes of back-pressure on the wires (0 = unbounded)
-	Faults    []wFault `json:"faults,omitempty"` // byte-level faults on the connection (wire next to the client, or the tunnel)
-	Probe     bool `json:"probe,omitempty"` // after the transfer, check that the session passes bytes through again
-	RawClient bool `json:"rawclient,omitempty"` // uploads: raw sending client built from product functions instead of the filter
-	FdLimit int   `json:"fdlimit,omitempty"` // RLIMIT_NOFILE during the execution (0 = unchanged)
+	WireCap   int          `json:"wirecap,omitempty"`   // bytes of back-pressure on the wires (0 = unbounded)
+	Faults    []wFault     `json:"faults,omitempty"`    // byte-level faults on the connection (wire next to the client, or the tunnel)
+	Probe     bool         `json:"probe,omitempty"`     // after the transfer, check that the session passes bytes through again
+	RawClient bool         `json:"rawclient,omitempty"` // uploads: raw sending client built from product functions instead of the filter
+	FdLimit   int          `json:"fdlimit,omitempty"`   // RLIMIT_NOFILE during the execution (0 = unchanged)
+	HashStep  int64        `json:"hash_step,omitempty"` // >0: the prefix-hash block for this run (rule R11), default the real 10 MiB
 
 	DstRoot string `json:"dstroot,omitempty"` // use (and keep) this destination directory instead of a fresh one
 
@@ -58,7 +59,7 @@ type wParams struct {
 
 	Tree   string `json:"tree"`             // source tree recipe
 	DstPre string `json:"dstpre,omitempty"` // destination pre-population recipe
-	Seg    string `json:"seg,omitempty"`    // "", "byte", "coalesce", "cut:<c2s|s2c>:<offset>"
+	Seg    string `json:"seg,omitempty"`    // "", "byte", "coalesce", "cut:<c2s|s2c>:<offset>[+<offset>...]" (read boundaries at these stream offsets, ascending)
 }
 
 // wStop is a user stop (client: Ctrl-C + a stop choice, i.e. StopTransferringFiles; server: SIGINT)
@@ -302,7 +303,9 @@ type treeEntry struct {
 
 // treeRecipe returns the entries of a named source tree and the top-level paths to transfer.
 func treeRecipe(name string) (entries []treeEntry, tops []string) {
-	file := func(p string, kind byte, seed, n int) { entries = append(entries, treeEntry{Path: p, Data: genContent(kind, seed, n)}) }
+	file := func(p string, kind byte, seed, n int) {
+		entries = append(entries, treeEntry{Path: p, Data: genContent(kind, seed, n)})
+	}
 	dir := func(p string) { entries = append(entries, treeEntry{Path: p, Dir: true}) }
 	var size int
 	switch {
@@ -465,28 +468,28 @@ type world struct {
 	relays   []*TrzszRelay
 	stdout   *os.File // what the server's process prints to its stdout outside the transfer writer
 
-	srvTransfer *trzszTransfer
-	srvStarted  bool
-	srvDone     bool
-	srvErr      error
-	srvDoneAt   time.Duration
-	cliStartAt  time.Duration
-	cliDoneAt   time.Duration
-	cliDone     bool
-	srvDoneStep int
-	cliDoneStep int
-	uploadRes   <-chan error
-	uploadErr   string
-	probeN      int
-	srvGen      int
-	srvExited   bool
-	markS2C0 int
+	srvTransfer                *trzszTransfer
+	srvStarted                 bool
+	srvDone                    bool
+	srvErr                     error
+	srvDoneAt                  time.Duration
+	cliStartAt                 time.Duration
+	cliDoneAt                  time.Duration
+	cliDone                    bool
+	srvDoneStep                int
+	cliDoneStep                int
+	uploadRes                  <-chan error
+	uploadErr                  string
+	probeN                     int
+	srvGen                     int
+	srvExited                  bool
+	markS2C0                   int
 	markC2S, markS2C, markTerm int // where the current transfer's bytes begin in the logs
-	stopAt      time.Duration
-	stopHit     bool
-	stopTransfer *trzszTransfer
-	pauseHits   int
-	pauseLog    []pauseRec
+	stopAt                     time.Duration
+	stopHit                    bool
+	stopTransfer               *trzszTransfer
+	pauseHits                  int
+	pauseLog                   []pauseRec
 
 	hookErr func(name string, args ...any) error
 	// hostile-peer support (C09, C12): doctored source records instead of a scan of the source tree,
@@ -495,47 +498,47 @@ type world struct {
 	rawClient   bool
 	rawErr      error
 	rawDone     bool
-	pre     map[string]string // full snapshot of the destination before the transfer
+	pre         map[string]string // full snapshot of the destination before the transfer
 }
 
 type worldResult struct {
-	Sched        *vs.Sched
-	SrvDone      bool
-	SrvErr       string
-	SrvStdout    string
-	Term         string
-	C2S, S2C     []byte // wire next to the server
-	SrvTunGot    []byte // what arrived at the server's end of the tunnel
-	ClientGot    []byte // everything that reached the client (in-band and tunnel)
+	Sched                  *vs.Sched
+	SrvDone                bool
+	SrvErr                 string
+	SrvStdout              string
+	Term                   string
+	C2S, S2C               []byte // wire next to the server
+	SrvTunGot              []byte // what arrived at the server's end of the tunnel
+	ClientGot              []byte // everything that reached the client (in-band and tunnel)
 	TunMsgsC2S, TunMsgsS2C int
-	TunLogC2S    []vs.Stamp
-	TunC2S, TunS2C []byte // tunnel connection next to the client (if any)
-	ClientExit   string // decoded #EXIT: message the client sent ("" if none)
-	ClientFail   string // decoded #fail:/#FAIL: message the client sent
-	ServerFail   string // decoded fail message the server sent
-	Dst          map[string]string
-	DstFull      map[string]string
-	Outside      map[string]string // everything in the execution's scratch root except the destination
-	Alive        []string
-	SrvDoneAt    time.Duration
-	CliDone      bool
-	StopAt       time.Duration
-	Pauses       []pauseRec
-	KeepAlives   []time.Duration
-	StepsAtDone  int    // scheduler step at which the later of the two sides was done
-	ClientSent   []byte // everything the client wrote towards the server (in-band and tunnel)
-	ServerSent   []byte
-	StopHit      bool // the stop arrived while a transfer was in progress on that side
-	StopCleanTimeout time.Duration
-	CliDoneAt    time.Duration
-	End          time.Duration
-	Transferring bool // filter still thinks a transfer is in progress at the end
-	Params       wParams
-	MarkC2S, MarkS2C0 int // where this transfer's bytes begin on the wire next to the client
-	Next         []*worldResult // follow-up transfers
-	ProbeOut     string // "ok", or what went wrong with the transparency probe after the transfer
-	TunLogS2C    []vs.Stamp
-	Quiet        bool // the world went quiescent (false: something was still running when the observation was taken)
+	TunLogC2S              []vs.Stamp
+	TunC2S, TunS2C         []byte // tunnel connection next to the client (if any)
+	ClientExit             string // decoded #EXIT: message the client sent ("" if none)
+	ClientFail             string // decoded #fail:/#FAIL: message the client sent
+	ServerFail             string // decoded fail message the server sent
+	Dst                    map[string]string
+	DstFull                map[string]string
+	Outside                map[string]string // everything in the execution's scratch root except the destination
+	Alive                  []string
+	SrvDoneAt              time.Duration
+	CliDone                bool
+	StopAt                 time.Duration
+	Pauses                 []pauseRec
+	KeepAlives             []time.Duration
+	StepsAtDone            int    // scheduler step at which the later of the two sides was done
+	ClientSent             []byte // everything the client wrote towards the server (in-band and tunnel)
+	ServerSent             []byte
+	StopHit                bool // the stop arrived while a transfer was in progress on that side
+	StopCleanTimeout       time.Duration
+	CliDoneAt              time.Duration
+	End                    time.Duration
+	Transferring           bool // filter still thinks a transfer is in progress at the end
+	Params                 wParams
+	MarkC2S, MarkS2C0      int            // where this transfer's bytes begin on the wire next to the client
+	Next                   []*worldResult // follow-up transfers
+	ProbeOut               string         // "ok", or what went wrong with the transparency probe after the transfer
+	TunLogS2C              []vs.Stamp
+	Quiet                  bool // the world went quiescent (false: something was still running when the observation was taken)
 }
 
 var worldScratch string // per worker process
@@ -597,11 +600,17 @@ func (w *world) segFunc0(dir string) func(p *vs.Pipe, n, max int) int {
 	case w.p.Seg == "coalesce":
 		return func(p *vs.Pipe, n, max int) int { return max }
 	case strings.HasPrefix(w.p.Seg, "cut:"+dir+":"):
-		var off int
-		fmt.Sscanf(w.p.Seg[len("cut:"+dir+":"):], "%d", &off)
+		var offs []int
+		for _, f := range strings.Split(w.p.Seg[len("cut:"+dir+":"):], "+") {
+			var off int
+			fmt.Sscanf(f, "%d", &off)
+			offs = append(offs, off)
+		}
 		return func(p *vs.Pipe, n, max int) int {
-			if p.Consumed < off && off < p.Consumed+n {
-				return off - p.Consumed
+			for _, off := range offs { // ascending
+				if p.Consumed < off && off < p.Consumed+n {
+					return off - p.Consumed
+				}
 			}
 			return n
 		}
@@ -1318,6 +1327,11 @@ func runWorldWith(p wParams, cfg vs.Config, prefix, prefixN []int, extra func(w 
 		syscall.Getrlimit(syscall.RLIMIT_NOFILE, &old)
 		syscall.Setrlimit(syscall.RLIMIT_NOFILE, &syscall.Rlimit{Cur: uint64(p.FdLimit), Max: old.Max})
 		defer syscall.Setrlimit(syscall.RLIMIT_NOFILE, &old)
+	}
+	if p.HashStep > 0 {
+		saved := kPrefixHashStep
+		kPrefixHashStep = p.HashStep
+		defer func() { kPrefixHashStep = saved }()
 	}
 	s := vs.Run(cfg, prefix, prefixN, func() {
 		w = buildWorld(p)
